@@ -43,5 +43,6 @@ fn main() {
         let text: Vec<String> = trace.iter().map(|v| v.to_string()).collect();
         writeln!(out, "{}", text.join(" ")).unwrap();
         out.flush().unwrap();
+        if sched::LEAKED.load(std::sync::atomic::Ordering::SeqCst) { std::process::exit(75); }
     }
 }
